@@ -3,14 +3,14 @@
    a cable, an inner pin, a wire; the instance paths ending in an instance of a definition for a
    definition; the pin references below the paths of its instance for an outer pin.
 
-   The code finds the netlist through  reference.library.netlist  of the FIRST instance it is
-   handed (the instance itself; else the first member of the reference set of the definition that
-   owns the port / cable / pin / wire). The statements therefore need that netlist to be the one
-   whose top instance the occurrences hang below:
-     instance                  root_netlist s e = Some n       (already in C11_occurrences_full)
-     port / cable / pin / wire the owning definition, if instantiated at all, sits in a library
-                               of n                            (MISSING in C11_occurrences_full:
-                               see occurrences_full_refuted at the end of this file). *)
+   The code finds the top instances from where the instances SIT (upward walk through parent
+   definitions and their instances), so the statements need no hypothesis on what the element's
+   instance references nor on the library of the definition that owns it: an instance without a
+   reference, and the elements of a definition that was never added to a library, get exactly their
+   occurrences (before the repair of get_all_hrefs_of_instances these two shapes got nothing:
+   findings C11-instance-without-reference, C11-definition-outside-library; the witness of the latter
+   is the Example occurrences_outside_library at the end of this file). Occurrences below the top
+   instances of several netlists are all returned. *)
 From Coq Require Import List Arith Bool Lia Relations.
 From SV Require Import Base.Base IR.State IR.NS IR.Ops Proofs.Inv1a Proofs.Inv2a Proofs.C01_lemmas
   Hier.Paths Hier.Enum Proofs.HierValid Proofs.HierEnum Proofs.HierC11 Proofs.HierOcc.
@@ -33,7 +33,7 @@ Definition owner_def (s : state) (e : id) : option id :=
   | _ => None
   end.
 
-(* every occurrence of e hangs below the top instance t *)
+(* every occurrence of e hangs below the top instance t (used by the uniqueness theorems) *)
 Definition under (s : state) (t e : id) : Prop :=
   forall h, occ s e h -> exists p, is_path s t p /\ exists q, h = q ++ p.
 
@@ -63,46 +63,36 @@ Proof.
   - exists [w; c]. reflexivity.
 Qed.
 
+(* if all occurrences of e hang below t, an instance path that carries an occurrence starts at t *)
+Lemma under_top s t e h t' r pre :
+  under s t e -> occ s e h -> h = pre ++ r -> is_rpath s t' r -> t' = t.
+Proof.
+  intros U Ho -> Hr. destruct (U _ Ho) as (p & [_ Hp] & q & E). eapply same_top; eassumption.
+Qed.
+
 Section Occ.
-Variables (s : state) (n t : id).
+Variable s : state.
 Hypothesis HWF : WF s.
-Hypothesis Htop : top s n = Some t.
-Hypothesis Hroot : is_root s t.
 
 Let I1 : Inv1a s := wf_inv1 s HWF.
 Let I2 : Inv2a s := wf_inv2 s HWF.
 Let W : WFk s := wf_kinds s HWF.
 Let A : acyclic s := wf_acyclic s HWF.
 
-(* if all occurrences of e hang below t, an instance path that carries an occurrence starts at t *)
-Lemma under_top e h t' r pre :
-  under s t e -> occ s e h -> h = pre ++ r -> is_rpath s t' r -> t' = t.
-Proof.
-  intros U Ho -> Hr. destruct (U _ Ho) as (p & [_ Hp] & q & E). eapply same_top; eassumption.
-Qed.
-
-(* ---- the instance paths that end in an instance of d ---- *)
+(* ---- the valid instance paths (from any top instance) that end in an instance of d ---- *)
 Definition ipaths_of_def (d : id) (p : href) : Prop :=
-  exists x p', p = x :: p' /\ is_rpath s t p /\ iref s x = Some d.
+  exists x p' t, p = x :: p' /\ is_path s t p /\ iref s x = Some d.
 
-Lemma insts_of_def d : (drefs s d <> [] -> def_netlist s d = Some n) ->
+Lemma insts_of_def d :
   exists l0, hrefs_of_instances s (drefs s d) = Some l0 /\ NoDup l0 /\
              forall p, In p l0 <-> ipaths_of_def d p.
 Proof.
-  intro Hd. destruct (drefs s d) as [|x0 rest] eqn:E.
-  - exists []. split; [reflexivity|]. split; [constructor|]. intro p. split; [intros []|].
-    intros (x & p' & _ & _ & Hx). apply (i2_ref s I2) in Hx. rewrite E in Hx. exact Hx.
-  - assert (Hx0 : iref s x0 = Some d) by (apply (i2_ref s I2); rewrite E; left; reflexivity).
-    assert (Hn : root_netlist s x0 = Some n).
-    { rewrite (root_netlist_def s x0 d Hx0). apply Hd. discriminate. }
-    destruct (hrefs_of_instances_spec s (x0 :: rest) x0 rest n t I1 I2 W A eq_refl Hn Htop)
-      as (l0 & E0 & N0 & S0).
-    exists l0. split; [exact E0|]. split; [exact N0|]. intro p. rewrite S0. unfold ipaths_of_def, ends_in.
-    rewrite <- E. split.
-    + intros [Hp (x & Hx & Hi)]. destruct p as [|y p']; [discriminate|]. cbn in Hx. inversion Hx; subst y.
-      exists x, p'. repeat split; [exact Hp|]. apply (i2_ref s I2). exact Hi.
-    + intros (x & p' & -> & Hp & Hx). split; [exact Hp|]. exists x. split; [reflexivity|].
-      apply (i2_ref s I2). exact Hx.
+  destruct (hrefs_of_instances_spec s (drefs s d) I1 I2 W A) as (l0 & E0 & N0 & S0).
+  exists l0. split; [exact E0|]. split; [exact N0|]. intro p. rewrite S0. unfold ipaths_of_def, ends_in. split.
+  - intros [(t & Hp) (x & Hx & Hi)]. destruct p as [|y p']; [discriminate|]. cbn in Hx. inversion Hx; subst y.
+    exists x, p', t. repeat split; [apply Hp|apply Hp|]. apply (i2_ref s I2). exact Hi.
+  - intros (x & p' & t & -> & Hp & Hx). split; [exists t; exact Hp|]. exists x. split; [reflexivity|].
+    apply (i2_ref s I2). exact Hx.
 Qed.
 
 (* hanging a fixed prefix (port; port and pin; cable; cable and wire) on each of those paths *)
@@ -110,14 +100,14 @@ Lemma lift_spec (pre : list id) d l0 :
   NoDup l0 -> (forall p, In p l0 <-> ipaths_of_def d p) ->
   NoDup (map (fun p => pre ++ p) l0) /\
   forall h, In h (map (fun p => pre ++ p) l0) <->
-            exists x p', h = pre ++ x :: p' /\ is_rpath s t (x :: p') /\ iref s x = Some d.
+            exists x p' t, h = pre ++ x :: p' /\ is_path s t (x :: p') /\ iref s x = Some d.
 Proof.
   intros N0 S0. split.
   - apply nodup_map_inj; [|exact N0]. intros a b _ _ E. apply app_inv_head in E. exact E.
   - intro h. rewrite in_map_iff. split.
-    + intros (p & <- & Hp). apply S0 in Hp as (x & p' & -> & Hp & Hx). exists x, p'. auto.
-    + intros (x & p' & -> & Hp & Hx). exists (x :: p'). split; [reflexivity|]. apply S0.
-      exists x, p'. auto.
+    + intros (p & <- & Hp). apply S0 in Hp as (x & p' & t & -> & Hp & Hx). exists x, p', t. auto.
+    + intros (x & p' & t & -> & Hp & Hx). exists (x :: p'). split; [reflexivity|]. apply S0.
+      exists x, p', t. auto.
 Qed.
 
 (* inversion of a reference headed by a pin / a wire *)
@@ -153,199 +143,182 @@ Qed.
 
 (* ---- instance ---- *)
 Theorem occ_instance e :
-  kind_of s e = Some KInstance -> root_netlist s e = Some n -> under s t e ->
+  kind_of s e = Some KInstance ->
   exists l, hrefs_of_item s (QId e) = Some l /\ NoDup l /\ (forall h, In h l <-> occ s e h).
 Proof.
-  intros K Hn U. unfold hrefs_of_item. rewrite K.
-  destruct (hrefs_of_instances_spec s [e] e [] n t I1 I2 W A eq_refl Hn Htop) as (l & E & N & S).
+  intros K. unfold hrefs_of_item. rewrite K.
+  destruct (hrefs_of_instances_spec s [e] I1 I2 W A) as (l & E & N & S).
   exists l. split; [exact E|]. split; [exact N|]. intro h. rewrite S. split.
-  - intros [Hp (x & Hx & [<-|[]])]. split; [|exact Hx]. apply (hr_inst s t). split; assumption.
+  - intros [(t & Hp) (x & Hx & [<-|[]])]. split; [|exact Hx]. apply (hr_inst s t). exact Hp.
   - intro Ho. destruct (occ_head e h Ho) as (p & -> & Hh).
-    destruct (href_inst_inv s W e p Hh K) as [t' [_ Hp]].
-    assert (t' = t) by (eapply (under_top e (e :: p) t' (e :: p) []); eauto). subst t'.
-    split; [exact Hp|]. exists e. split; [reflexivity|left; reflexivity].
+    destruct (href_inst_inv s W e p Hh K) as [t' Hp].
+    split; [exists t'; exact Hp|]. exists e. split; [reflexivity|left; reflexivity].
 Qed.
 
-(* ---- definition: the instance paths ending in one of its instances ---- *)
+(* ---- definition: the valid instance paths ending in one of its instances ---- *)
 Theorem occ_definition d :
-  kind_of s d = Some KDefinition -> (drefs s d <> [] -> def_netlist s d = Some n) ->
+  kind_of s d = Some KDefinition ->
   exists l, hrefs_of_item s (QId d) = Some l /\ NoDup l /\
-            (forall p, In p l <-> exists x p', p = x :: p' /\ is_rpath s t p /\ iref s x = Some d).
-Proof. intros K Hd. unfold hrefs_of_item. rewrite K. apply insts_of_def. exact Hd. Qed.
+            (forall p, In p l <-> exists x p' t, p = x :: p' /\ is_path s t p /\ iref s x = Some d).
+Proof. intros K. unfold hrefs_of_item. rewrite K. apply insts_of_def. Qed.
 
 (* ---- port ---- *)
 Theorem occ_port e :
   kind_of s e = Some KPort ->
-  (forall d, par s RPorts e = Some d -> drefs s d <> [] -> def_netlist s d = Some n) ->
-  under s t e ->
   exists l, hrefs_of_item s (QId e) = Some l /\ NoDup l /\ (forall h, In h l <-> occ s e h).
 Proof.
-  intros K Hd U. unfold hrefs_of_item. rewrite K.
-  assert (Inv : forall h, occ s e h -> exists d x p', par s RPorts e = Some d /\ h = [e] ++ x :: p' /\
-                                      is_rpath s t (x :: p') /\ iref s x = Some d).
+  intros K. unfold hrefs_of_item. rewrite K.
+  assert (Inv : forall h, occ s e h -> exists d x p' t, par s RPorts e = Some d /\ h = [e] ++ x :: p' /\
+                                      is_path s t (x :: p') /\ iref s x = Some d).
   { intros h Ho. destruct (occ_head e h Ho) as (p & -> & Hh).
-    destruct (href_port_inv s W e p Hh K) as (t' & x & p' & -> & [_ Hp] & Hq).
-    assert (t' = t) by (eapply (under_top e _ t' (x :: p') [e]); eauto). subst t'.
-    apply (ports_of_iff s) in Hq as (d & Ex & Hq). exists d, x, p'.
+    destruct (href_port_inv s W e p Hh K) as (t' & x & p' & -> & Hp & Hq).
+    apply (ports_of_iff s) in Hq as (d & Ex & Hq). exists d, x, p', t'.
     split; [apply (i1_kids s I1); exact Hq|]. auto. }
   destruct (par s RPorts e) as [d|] eqn:P.
-  - destruct (insts_of_def d (Hd d eq_refl)) as (l0 & -> & N0 & S0). cbn [option_map].
+  - destruct (insts_of_def d) as (l0 & -> & N0 & S0). cbn [option_map].
     change (map (fun h => e :: h) l0) with (map (fun h => [e] ++ h) l0).
     destruct (lift_spec [e] d l0 N0 S0) as [N S]. eexists. split; [reflexivity|]. split; [exact N|].
     intro h. rewrite S. split.
-    + intros (x & p' & -> & Hp & Hx). split; [|reflexivity]. apply (hr_port s t); [split; assumption|].
+    + intros (x & p' & t & -> & Hp & Hx). split; [|reflexivity]. apply (hr_port s t); [exact Hp|].
       apply (ports_of_iff s). exists d. split; [exact Hx|]. apply (i1_kids s I1). exact P.
-    + intro Ho. destruct (Inv h Ho) as (d' & x & p' & Ed & -> & Hp & Hx). inversion Ed; subst d'. eauto.
+    + intro Ho. destruct (Inv h Ho) as (d' & x & p' & t & Ed & -> & Hp & Hx). inversion Ed; subst d'. eauto 6.
   - exists []. split; [reflexivity|]. split; [constructor|]. intro h. split; [intros []|].
-    intro Ho. destruct (Inv h Ho) as (d' & _ & _ & Ed & _). discriminate.
+    intro Ho. destruct (Inv h Ho) as (d' & _ & _ & _ & Ed & _). discriminate.
 Qed.
 
 (* ---- cable ---- *)
 Theorem occ_cable e :
   kind_of s e = Some KCable ->
-  (forall d, par s RCables e = Some d -> drefs s d <> [] -> def_netlist s d = Some n) ->
-  under s t e ->
   exists l, hrefs_of_item s (QId e) = Some l /\ NoDup l /\ (forall h, In h l <-> occ s e h).
 Proof.
-  intros K Hd U. unfold hrefs_of_item. rewrite K.
-  assert (Inv : forall h, occ s e h -> exists d x p', par s RCables e = Some d /\ h = [e] ++ x :: p' /\
-                                      is_rpath s t (x :: p') /\ iref s x = Some d).
+  intros K. unfold hrefs_of_item. rewrite K.
+  assert (Inv : forall h, occ s e h -> exists d x p' t, par s RCables e = Some d /\ h = [e] ++ x :: p' /\
+                                      is_path s t (x :: p') /\ iref s x = Some d).
   { intros h Ho. destruct (occ_head e h Ho) as (p & -> & Hh).
-    destruct (href_cable_inv s W e p Hh K) as (t' & x & p' & -> & [_ Hp] & Hq).
-    assert (t' = t) by (eapply (under_top e _ t' (x :: p') [e]); eauto). subst t'.
-    apply (cables_of_iff s) in Hq as (d & Ex & Hq). exists d, x, p'.
+    destruct (href_cable_inv s W e p Hh K) as (t' & x & p' & -> & Hp & Hq).
+    apply (cables_of_iff s) in Hq as (d & Ex & Hq). exists d, x, p', t'.
     split; [apply (i1_kids s I1); exact Hq|]. auto. }
   destruct (par s RCables e) as [d|] eqn:P.
-  - destruct (insts_of_def d (Hd d eq_refl)) as (l0 & -> & N0 & S0). cbn [option_map].
+  - destruct (insts_of_def d) as (l0 & -> & N0 & S0). cbn [option_map].
     change (map (fun h => e :: h) l0) with (map (fun h => [e] ++ h) l0).
     destruct (lift_spec [e] d l0 N0 S0) as [N S]. eexists. split; [reflexivity|]. split; [exact N|].
     intro h. rewrite S. split.
-    + intros (x & p' & -> & Hp & Hx). split; [|reflexivity]. apply (hr_cable s t); [split; assumption|].
+    + intros (x & p' & t & -> & Hp & Hx). split; [|reflexivity]. apply (hr_cable s t); [exact Hp|].
       apply (cables_of_iff s). exists d. split; [exact Hx|]. apply (i1_kids s I1). exact P.
-    + intro Ho. destruct (Inv h Ho) as (d' & x & p' & Ed & -> & Hp & Hx). inversion Ed; subst d'. eauto.
+    + intro Ho. destruct (Inv h Ho) as (d' & x & p' & t & Ed & -> & Hp & Hx). inversion Ed; subst d'. eauto 6.
   - exists []. split; [reflexivity|]. split; [constructor|]. intro h. split; [intros []|].
-    intro Ho. destruct (Inv h Ho) as (d' & _ & _ & Ed & _). discriminate.
+    intro Ho. destruct (Inv h Ho) as (d' & _ & _ & _ & Ed & _). discriminate.
 Qed.
 
 (* ---- inner pin ---- *)
 Theorem occ_pin e :
   kind_of s e = Some KPin ->
-  (forall q d, par s RPins e = Some q -> par s RPorts q = Some d -> drefs s d <> [] ->
-               def_netlist s d = Some n) ->
-  under s t e ->
   exists l, hrefs_of_item s (QId e) = Some l /\ NoDup l /\ (forall h, In h l <-> occ s e h).
 Proof.
-  intros K Hd U. unfold hrefs_of_item. rewrite K.
-  assert (Inv : forall h, occ s e h -> exists q d x p', par s RPins e = Some q /\ par s RPorts q = Some d /\
-                            h = [e; q] ++ x :: p' /\ is_rpath s t (x :: p') /\ iref s x = Some d).
+  intros K. unfold hrefs_of_item. rewrite K.
+  assert (Inv : forall h, occ s e h -> exists q d x p' t, par s RPins e = Some q /\ par s RPorts q = Some d /\
+                            h = [e; q] ++ x :: p' /\ is_path s t (x :: p') /\ iref s x = Some d).
   { intros h Ho. destruct (occ_head e h Ho) as (p & -> & Hh).
-    destruct (href_pin_inv e p Hh K) as (t' & q & x & p' & -> & [_ Hp] & Hq & Hi).
-    assert (t' = t) by (eapply (under_top e _ t' (x :: p') [e; q]); eauto). subst t'.
-    apply (ports_of_iff s) in Hq as (d & Ex & Hq). exists q, d, x, p'.
+    destruct (href_pin_inv e p Hh K) as (t' & q & x & p' & -> & Hp & Hq & Hi).
+    apply (ports_of_iff s) in Hq as (d & Ex & Hq). exists q, d, x, p', t'.
     split; [apply (i1_kids s I1); exact Hi|]. split; [apply (i1_kids s I1); exact Hq|]. auto. }
   destruct (par s RPins e) as [q|] eqn:Pq.
   - destruct (par s RPorts q) as [d|] eqn:P.
-    + destruct (insts_of_def d (Hd q d eq_refl P)) as (l0 & -> & N0 & S0). cbn [option_map].
+    + destruct (insts_of_def d) as (l0 & -> & N0 & S0). cbn [option_map].
       change (map (fun h => e :: q :: h) l0) with (map (fun h => [e; q] ++ h) l0).
       destruct (lift_spec [e; q] d l0 N0 S0) as [N S]. eexists. split; [reflexivity|]. split; [exact N|].
       intro h. rewrite S. split.
-      * intros (x & p' & -> & Hp & Hx). split; [|reflexivity].
-        apply (hr_pin s t); [split; assumption| |apply (i1_kids s I1); exact Pq].
+      * intros (x & p' & t & -> & Hp & Hx). split; [|reflexivity].
+        apply (hr_pin s t); [exact Hp| |apply (i1_kids s I1); exact Pq].
         apply (ports_of_iff s). exists d. split; [exact Hx|]. apply (i1_kids s I1). exact P.
-      * intro Ho. destruct (Inv h Ho) as (q' & d' & x & p' & Eq & Ed & -> & Hp & Hx).
-        inversion Eq; subst q'. rewrite P in Ed. inversion Ed; subst d'. eauto.
+      * intro Ho. destruct (Inv h Ho) as (q' & d' & x & p' & t & Eq & Ed & -> & Hp & Hx).
+        inversion Eq; subst q'. rewrite P in Ed. inversion Ed; subst d'. eauto 6.
     + exists []. split; [reflexivity|]. split; [constructor|]. intro h. split; [intros []|].
-      intro Ho. destruct (Inv h Ho) as (q' & d' & _ & _ & Eq & Ed & _). inversion Eq; subst q'.
+      intro Ho. destruct (Inv h Ho) as (q' & d' & _ & _ & _ & Eq & Ed & _). inversion Eq; subst q'.
       rewrite P in Ed. discriminate.
   - exists []. split; [reflexivity|]. split; [constructor|]. intro h. split; [intros []|].
-    intro Ho. destruct (Inv h Ho) as (q' & _ & _ & _ & Eq & _). discriminate.
+    intro Ho. destruct (Inv h Ho) as (q' & _ & _ & _ & _ & Eq & _). discriminate.
 Qed.
 
 (* ---- wire ---- *)
 Theorem occ_wire e :
   kind_of s e = Some KWire ->
-  (forall c d, par s RWires e = Some c -> par s RCables c = Some d -> drefs s d <> [] ->
-               def_netlist s d = Some n) ->
-  under s t e ->
   exists l, hrefs_of_item s (QId e) = Some l /\ NoDup l /\ (forall h, In h l <-> occ s e h).
 Proof.
-  intros K Hd U. unfold hrefs_of_item. rewrite K.
-  assert (Inv : forall h, occ s e h -> exists q d x p', par s RWires e = Some q /\ par s RCables q = Some d /\
-                            h = [e; q] ++ x :: p' /\ is_rpath s t (x :: p') /\ iref s x = Some d).
+  intros K. unfold hrefs_of_item. rewrite K.
+  assert (Inv : forall h, occ s e h -> exists q d x p' t, par s RWires e = Some q /\ par s RCables q = Some d /\
+                            h = [e; q] ++ x :: p' /\ is_path s t (x :: p') /\ iref s x = Some d).
   { intros h Ho. destruct (occ_head e h Ho) as (p & -> & Hh).
-    destruct (href_wire_inv e p Hh K) as (t' & q & x & p' & -> & [_ Hp] & Hq & Hi).
-    assert (t' = t) by (eapply (under_top e _ t' (x :: p') [e; q]); eauto). subst t'.
-    apply (cables_of_iff s) in Hq as (d & Ex & Hq). exists q, d, x, p'.
+    destruct (href_wire_inv e p Hh K) as (t' & q & x & p' & -> & Hp & Hq & Hi).
+    apply (cables_of_iff s) in Hq as (d & Ex & Hq). exists q, d, x, p', t'.
     split; [apply (i1_kids s I1); exact Hi|]. split; [apply (i1_kids s I1); exact Hq|]. auto. }
   destruct (par s RWires e) as [q|] eqn:Pq.
   - destruct (par s RCables q) as [d|] eqn:P.
-    + destruct (insts_of_def d (Hd q d eq_refl P)) as (l0 & -> & N0 & S0). cbn [option_map].
+    + destruct (insts_of_def d) as (l0 & -> & N0 & S0). cbn [option_map].
       change (map (fun h => e :: q :: h) l0) with (map (fun h => [e; q] ++ h) l0).
       destruct (lift_spec [e; q] d l0 N0 S0) as [N S]. eexists. split; [reflexivity|]. split; [exact N|].
       intro h. rewrite S. split.
-      * intros (x & p' & -> & Hp & Hx). split; [|reflexivity].
-        apply (hr_wire s t); [split; assumption| |apply (i1_kids s I1); exact Pq].
+      * intros (x & p' & t & -> & Hp & Hx). split; [|reflexivity].
+        apply (hr_wire s t); [exact Hp| |apply (i1_kids s I1); exact Pq].
         apply (cables_of_iff s). exists d. split; [exact Hx|]. apply (i1_kids s I1). exact P.
-      * intro Ho. destruct (Inv h Ho) as (q' & d' & x & p' & Eq & Ed & -> & Hp & Hx).
-        inversion Eq; subst q'. rewrite P in Ed. inversion Ed; subst d'. eauto.
+      * intro Ho. destruct (Inv h Ho) as (q' & d' & x & p' & t & Eq & Ed & -> & Hp & Hx).
+        inversion Eq; subst q'. rewrite P in Ed. inversion Ed; subst d'. eauto 6.
     + exists []. split; [reflexivity|]. split; [constructor|]. intro h. split; [intros []|].
-      intro Ho. destruct (Inv h Ho) as (q' & d' & _ & _ & Eq & Ed & _). inversion Eq; subst q'.
+      intro Ho. destruct (Inv h Ho) as (q' & d' & _ & _ & _ & Eq & Ed & _). inversion Eq; subst q'.
       rewrite P in Ed. discriminate.
   - exists []. split; [reflexivity|]. split; [constructor|]. intro h. split; [intros []|].
-    intro Ho. destruct (Inv h Ho) as (q' & _ & _ & _ & Eq & _). discriminate.
+    intro Ho. destruct (Inv h Ho) as (q' & _ & _ & _ & _ & Eq & _). discriminate.
 Qed.
 
 (* ---- outer pin (instance x, inner pin i): the pin references below the occurrences of x ---- *)
 Theorem occ_outer_pin x i q :
-  root_netlist s x = Some n -> par s RPins i = Some q ->
+  par s RPins i = Some q ->
   exists l, hrefs_of_item s (QOuter x i) = Some l /\ NoDup l /\
-            (forall h, In h l <-> exists p', h = i :: q :: x :: p' /\ is_rpath s t (x :: p')).
+            (forall h, In h l <-> exists p' t, h = i :: q :: x :: p' /\ is_path s t (x :: p')).
 Proof.
-  intros Hn P. unfold hrefs_of_item. rewrite P.
-  destruct (hrefs_of_instances_spec s [x] x [] n t I1 I2 W A eq_refl Hn Htop) as (l0 & -> & N0 & S0).
+  intros P. unfold hrefs_of_item. rewrite P.
+  destruct (hrefs_of_instances_spec s [x] I1 I2 W A) as (l0 & -> & N0 & S0).
   cbn [option_map]. eexists. split; [reflexivity|]. split.
   - apply nodup_map_inj; [|exact N0]. intros a b _ _ E. inversion E. reflexivity.
   - intro h. rewrite in_map_iff. split.
-    + intros (p & <- & Hp). apply S0 in Hp as [Hp (y & Hy & [<-|[]])].
-      destruct p as [|z p']; [discriminate|]. cbn in Hy. inversion Hy; subst z. exists p'. auto.
-    + intros (p' & -> & Hp). exists (x :: p'). split; [reflexivity|]. apply S0. split; [exact Hp|].
+    + intros (p & <- & Hp). apply S0 in Hp as [(t & Hp) (y & Hy & [<-|[]])].
+      destruct p as [|z p']; [discriminate|]. cbn in Hy. inversion Hy; subst z. exists p', t. auto.
+    + intros (p' & t & -> & Hp). exists (x :: p'). split; [reflexivity|]. apply S0. split; [exists t; exact Hp|].
       exists x. split; [reflexivity|left; reflexivity].
 Qed.
 
 (* ... which are valid references as soon as the port of the inner pin is a port of the
    definition the instance references (the meaning of an outer pin) *)
-Lemma outer_pin_refs_valid x i q p' :
-  par s RPins i = Some q -> In q (ports_of s x) -> is_rpath s t (x :: p') ->
+Lemma outer_pin_refs_valid t x i q p' :
+  par s RPins i = Some q -> In q (ports_of s x) -> is_path s t (x :: p') ->
   is_href s (i :: q :: x :: p').
 Proof.
-  intros P Hq Hp. apply (hr_pin s t); [split; assumption|exact Hq|]. apply (i1_kids s I1). exact P.
+  intros P Hq Hp. apply (hr_pin s t); [exact Hp|exact Hq|]. apply (i1_kids s I1). exact P.
 Qed.
 
-(* ---- all kinds of C11_occurrences_full in one statement ---- *)
+(* ---- all kinds in one statement ---- *)
 Theorem occ_item e :
   (kind_of s e = Some KInstance \/ kind_of s e = Some KPort \/ kind_of s e = Some KPin \/
    kind_of s e = Some KCable \/ kind_of s e = Some KWire) ->
-  (kind_of s e = Some KInstance -> root_netlist s e = Some n) ->
-  (forall d, owner_def s e = Some d -> drefs s d <> [] -> def_netlist s d = Some n) ->
-  under s t e ->
   exists l, hrefs_of_item s (QId e) = Some l /\ NoDup l /\ (forall h, In h l <-> occ s e h).
 Proof.
-  intros K Hi Hd U. unfold owner_def in Hd. destruct K as [K|[K|[K|[K|K]]]]; rewrite K in Hd.
+  intros [K|[K|[K|[K|K]]]].
   - apply occ_instance; auto.
   - apply occ_port; auto.
-  - apply occ_pin; auto. intros q d Pq P. apply Hd. rewrite Pq. exact P.
+  - apply occ_pin; auto.
   - apply occ_cable; auto.
-  - apply occ_wire; auto. intros q d Pq P. apply Hd. rewrite Pq. exact P.
+  - apply occ_wire; auto.
 Qed.
 
 End Occ.
 
 (* ------------------------------------------------------------------------------------------ *)
-(* the hypothesis on the owning definition cannot be dropped: a computed witness.
+(* the witness of the former finding C11-definition-outside-library, now answered.
    History: netlist 0, library 1, definition 2 (in the library), definition 3 created on its own and
    never added to a library, port 4 of 3, child 5 of 2 referencing 3, top instance 6 created from 2.
-   The reference  port 4 :: instance 5 :: top 6  is valid and is enumerated by get_hports(netlist),
-   but hrefs_of_item (port 4) is empty: the netlist is looked up through the library of 3. *)
+   The reference  port 4 :: instance 5 :: top 6  is valid, is enumerated by get_hports(netlist), and
+   is what hrefs_of_item (port 4) returns; instance 5 (whose reference is in no library) gets its
+   occurrence as well. *)
 Definition w_ops : list op :=
   [ ONew KNetlist None [];
     OCreate RLibs 0 None [] 0 None;
@@ -396,11 +369,6 @@ Proof.
   - exact w_acyclic.
 Qed.
 
-Lemma w_root t : is_root w_state t -> t = 6.
-Proof.
-  intros (n & _ & Ht). w_split_id n; vm_compute in Ht; try discriminate. inversion Ht. reflexivity.
-Qed.
-
 Lemma w_root6 : is_root w_state 6.
 Proof. exists 0. split; vm_compute; reflexivity. Qed.
 
@@ -411,33 +379,36 @@ Proof.
   - vm_compute. left. reflexivity.
 Qed.
 
-Lemma w_under : under w_state 6 4.
+(* the owning definition 3 of port 4 is in no library, instance 5 references it; both queries
+   return the one valid reference *)
+Example occurrences_outside_library :
+  WF w_state /\ owner_def w_state 4 = Some 3 /\ def_netlist w_state 3 = None /\ drefs w_state 3 = [5] /\
+  occ w_state 4 [4; 5; 6] /\
+  hrefs_of_item w_state (QId 4) = Some [[4; 5; 6]] /\
+  hrefs_of_item w_state (QId 5) = Some [[5; 6]].
 Proof.
-  intros h Ho. destruct Ho as [Hh He]. destruct h as [|y p]; [discriminate|]. cbn in He. inversion He; subst y.
-  assert (K4 : kind_of w_state 4 = Some KPort) by (vm_compute; reflexivity).
-  destruct (href_port_inv w_state w_wfk 4 p Hh K4) as (t' & x & p' & -> & Hp & _).
-  pose proof (w_root t' (proj1 Hp)) as ->. exists (x :: p'). split; [exact Hp|]. exists [4]. reflexivity.
+  split; [exact w_wf|]. split; [vm_compute; reflexivity|]. split; [vm_compute; reflexivity|].
+  split; [vm_compute; reflexivity|]. split; [exact w_occ|]. split; vm_compute; reflexivity.
 Qed.
 
-(* the statement of Props/C11.v, C11_occurrences_full, is false of the model (and of the code) *)
-Theorem occurrences_full_refuted :
-  ~ (forall s n t e l,
-      WF s -> top s n = Some t -> is_root s t ->
-      (kind_of s e = Some KInstance \/ kind_of s e = Some KPort \/ kind_of s e = Some KPin \/
-       kind_of s e = Some KCable \/ kind_of s e = Some KWire) ->
-      (kind_of s e = Some KInstance -> root_netlist s e = Some n) ->
-      (forall h, occ s e h -> exists p, is_path s t p /\ exists q, h = q ++ p) ->
-      hrefs_of_item s (QId e) = Some l ->
-      NoDup l /\ (forall h, In h l <-> occ s e h)).
+(* an instance WITHOUT a reference (former finding C11-instance-without-reference): netlist 0,
+   library 1, definition 2, child 3 of 2 with no reference, top instance 4 created from 2. *)
+Definition nr_ops : list op :=
+  [ ONew KNetlist None [];
+    OCreate RLibs 0 None [] 0 None;
+    OCreate RDefs 1 None [] 0 None;
+    OCreate RChildren 2 None [] 0 None;
+    OSetTop 0 (TopDef 2) ].
+
+Definition nr_state : state := run nr_ops init.
+
+Example occurrences_without_reference :
+  never_stuck nr_ops init /\ kind_of nr_state 3 = Some KInstance /\ iref nr_state 3 = None /\
+  is_valid nr_state [3; 4] = true /\
+  get_hinstances_netlist nr_state 0 true = Some [[3; 4]] /\
+  hrefs_of_item nr_state (QId 3) = Some [[3; 4]].
 Proof.
-  intro F.
-  assert (Ht : top w_state 0 = Some 6) by (vm_compute; reflexivity).
-  destruct (F w_state 0 6 4 [] w_wf Ht w_root6) as [_ S].
-  - right. left. vm_compute. reflexivity.
-  - intro K. vm_compute in K. discriminate.
-  - exact w_under.
-  - vm_compute. reflexivity.
-  - apply (S [4; 5; 6]). exact w_occ.
+  split; [vm_compute; repeat split; discriminate|]. repeat split; vm_compute; reflexivity.
 Qed.
 
 (* the hypotheses of occ_item are satisfiable, with a non-empty answer: Proofs/HierValid.ex_state
@@ -459,22 +430,18 @@ Proof.
 Qed.
 
 Example occ_item_example :
-  exists s n t e l, WF s /\ top s n = Some t /\ is_root s t /\ kind_of s e = Some KPin /\
-    (forall d, owner_def s e = Some d -> drefs s d <> [] -> def_netlist s d = Some n) /\
+  exists s e l, WF s /\ kind_of s e = Some KPin /\
     hrefs_of_item s (QId e) = Some l /\ l = [[5; 4; 6; 7]].
 Proof.
-  exists HierValid.ex_state, 0, 7, 5, [[5; 4; 6; 7]].
-  split; [exact ex2_wf|].
-  split; [vm_compute; reflexivity|]. split; [exists 0; split; vm_compute; reflexivity|].
-  split; [vm_compute; reflexivity|].
-  split; [|split; [vm_compute; reflexivity|reflexivity]].
-  intros d Hd _. assert (Eo : owner_def HierValid.ex_state 5 = Some 2) by (vm_compute; reflexivity).
-  rewrite Eo in Hd. inversion Hd; subst d. vm_compute. reflexivity.
+  exists HierValid.ex_state, 5, [[5; 4; 6; 7]].
+  split; [exact ex2_wf|]. split; [vm_compute; reflexivity|].
+  split; [vm_compute; reflexivity|reflexivity].
 Qed.
 
 Print Assumptions occ_item.
 Print Assumptions under_single_root.
 Print Assumptions occ_definition.
 Print Assumptions occ_outer_pin.
-Print Assumptions occurrences_full_refuted.
+Print Assumptions occurrences_outside_library.
+Print Assumptions occurrences_without_reference.
 Print Assumptions occ_item_example.
